@@ -250,6 +250,12 @@ func (fr *Frame) call(st *State, instr ssa.Instruction, c *ssa.CallCommon, v ssa
 		if c.IsInvoke() {
 			targs = append([]Val{fr.val(c.Value)}, args...)
 		}
+		if tc.RepoImpls && !tc.ModSet && c.IsInvoke() {
+			vc.curIface, vc.curMethod = nil, nil
+			if n, ok := types.Unalias(c.Value.Type()).(*types.Named); ok {
+				vc.curIface, vc.curMethod = n, c.Method
+			}
+		}
 		setResult(fr.contractCall(st, tc, nil, targs, nil, name, instr.Pos()))
 		return true
 	}
@@ -299,6 +305,11 @@ func (fr *Frame) assertAt(st *State, name string, args []Val, pos token.Pos) {
 			binds[fmt.Sprintf("arg%d", i)] = av
 		}
 		env := &SpecEnv{vc: vc, fn: vc.fn, binds: binds, cur: st, old: vc.entry}
+		if a.Assume {
+			vc.assumeAt(st, env.boolExpr(a.Clause.Expr))
+			vc.note("ASSUMED at calls to " + a.Callee + " in " + vc.fnName() + " (" + a.Clause.Pos + "): " + a.Clause.Text)
+			continue
+		}
 		o := vc.oblige(st, "assert-at "+a.Callee, a.Clause.label(), env.boolExpr(a.Clause.Expr), pos)
 		if o != nil {
 			o.Note = a.Clause.Pos
@@ -658,6 +669,11 @@ func (vc *VC) modLocation(con *Contract, callee *ssa.Function, m string, binds m
 func (fr *Frame) applyModifies(st, pre *State, con *Contract, callee *ssa.Function, binds map[string]Val) {
 	vc := fr.vc
 	if !con.ModSet {
+		if con.RepoImpls && vc.curIface != nil && callee == nil {
+			if vc.havocImpls(st, vc.curIface, vc.curMethod, con.Target) {
+				return
+			}
+		}
 		vc.havocCallee(st, callee, con.Target)
 		return
 	}
@@ -678,7 +694,7 @@ func (fr *Frame) applyModifies(st, pre *State, con *Contract, callee *ssa.Functi
 		}
 	}
 	for _, name := range sortedKeys(whole) {
-		st.heap[name] = vc.freshConst(name, vc.heapSort[name])
+		st.heap[name] = vc.havocOne(pre, name)
 	}
 	for _, name := range sortedKeys(locs) {
 		if whole[name] {
@@ -1177,15 +1193,17 @@ func (fr *Frame) appendB(st *State, c *ssa.CallCommon, args []Val, v ssa.Value, 
 		vc.assumeAt(st, fmt.Sprintf(
 			"(forall ((p Ref)) (! (=> (not (and ((_ is elem) p) (= (e.arr p) (s.arr %s)) (>= (e.idx p) (+ (s.off %s) (ite %s (s.len %s) 0))) (< (e.idx p) (+ (s.off %s) (s.len %s))))) (= (select %s p) (select %s p))) :pattern ((select %s p))))",
 			r, r, fits, s.T, r, r, newH, oldH, newH))
-		// copied prefix when reallocated
+		// copied prefix when reallocated (trigger: a read of the new memory at an
+		// element of the new array)
 		vc.assumeAt(st, fmt.Sprintf(
-			"(=> (and (not %s) (> %s 0)) (forall ((j Int)) (! (=> (and (<= 0 j) (< j (s.len %s))) (= (select %s (elem %s j)) (select %s (elem (s.arr %s) (+ (s.off %s) j))))) :pattern ((elem %s j)))))",
-			fits, n, s.T, newH, newArr, oldH, s.T, s.T, newArr))
-		// appended elements
+			"(=> (and (not %s) (> %s 0)) (forall ((k Int)) (! (=> (and (<= 0 k) (< k (s.len %s))) (= (select %s (elem %s k)) (select %s (elem (s.arr %s) (+ (s.off %s) k))))) :pattern ((select %s (elem %s k))))))",
+			fits, n, s.T, newH, newArr, oldH, s.T, s.T, newH, newArr))
+		// appended elements, by absolute index k into the result's array
 		if !fromString {
+			lo := fmt.Sprintf("(+ (s.off %s) (s.len %s))", r, s.T)
 			vc.assumeAt(st, fmt.Sprintf(
-				"(forall ((j Int)) (! (=> (and (<= 0 j) (< j %s)) (= (select %s (elem (s.arr %s) (+ (s.off %s) (s.len %s) j))) (select %s (elem %s (+ %s j))))) :pattern ((elem %s (+ %s j)))))",
-				n, newH, r, r, s.T, oldH, srcArr, srcOff, srcArr, srcOff))
+				"(forall ((k Int)) (! (=> (and (<= %s k) (< k (+ %s %s))) (= (select %s (elem (s.arr %s) k)) (select %s (elem %s (+ %s (- k %s)))))) :pattern ((select %s (elem (s.arr %s) k)))))",
+				lo, lo, n, newH, r, oldH, srcArr, srcOff, lo, newH, r))
 			// the common single-element case, instantiated explicitly
 			vc.assumeAt(st, fmt.Sprintf("(=> (>= %s 1) (= (select %s (elem (s.arr %s) (+ (s.off %s) (s.len %s)))) (select %s (elem %s %s))))",
 				n, newH, r, r, s.T, oldH, srcArr, srcOff))
@@ -1225,8 +1243,8 @@ func (fr *Frame) copyB(st *State, c *ssa.CallCommon, args []Val, v ssa.Value) {
 			dst.T, dst.T, dst.T, n, newH, oldH, newH))
 		if !fromString {
 			vc.assumeAt(st, fmt.Sprintf(
-				"(forall ((j Int)) (! (=> (and (<= 0 j) (< j %s)) (= (select %s (elem (s.arr %s) (+ (s.off %s) j))) (select %s (elem (s.arr %s) (+ (s.off %s) j))))) :pattern ((elem (s.arr %s) (+ (s.off %s) j)))))",
-				n, newH, dst.T, dst.T, oldH, src.T, src.T, dst.T, dst.T))
+				"(forall ((k Int)) (! (=> (and (<= (s.off %s) k) (< k (+ (s.off %s) %s))) (= (select %s (elem (s.arr %s) k)) (select %s (elem (s.arr %s) (+ (s.off %s) (- k (s.off %s))))))) :pattern ((select %s (elem (s.arr %s) k)))))",
+				dst.T, dst.T, n, newH, dst.T, oldH, src.T, src.T, dst.T, newH, dst.T))
 		}
 		st.heap[hv] = newH
 	}
